@@ -90,7 +90,7 @@ def gen_model(rng: random.Random, *, max_samples: int = 8, max_perf: int = 4, ma
     ns = rng.randint(1, max_samples)
     samples = [gen_sample(rng, safe_name(rng, used), key(), max_clusters=max_clusters) for _ in range(ns)]
     partials, patches, perfs = [], [], []
-    pn: set = set()
+    pn = used          # one name space per disk: a patch (program) and a sample of one performance must not collide
     nperf = rng.randint(1, max_perf)
     for pi in range(nperf):
         # samples of this performance: a subset, each used by exactly one patch of the performance
